@@ -161,6 +161,15 @@ def gen_script(rng: Rng, tag: str, consts: Rng | None = None, const_exprs: bool 
         for a in anames:
             expr = f"op.Add(op.Mul({expr}, {a}), {a})" if rng.chance(0.5) else f"op.Mul({expr}, {a})"
         lines += ["@script()", f"def attrs_{tag}(p: FLOAT['N'], {sig}) -> FLOAT['N']:", f"    return {expr}", ""]
+    # a wrapper around operators of a custom domain only (no standard-domain operator anywhere in it): which standard opset
+    # its model imports is decided by arguments and defaults alone
+    wrapper = None
+    if rng.chance(0.25):
+        wrapper = f"wrap_{tag}"
+        lines += ["from onnxscript.values import Opset as _Opset", f"EXT_{tag} = _Opset('com.example', {rng.choice([1, 2])})", "@script()",
+                  f"def {wrapper}(p, q):",
+                  f"    t = EXT_{tag}.FusedThing(p, q, alpha={rng.choice(['0.5', '2.0'])})",
+                  f"    return EXT_{tag}.Post(t{rng.choice(['', ', q'])})", ""]
     dec = "@DEC" if rng.chance(0.3) else "@script()"
     fname = f"f_{tag}"
     body: list[str] = []
@@ -263,7 +272,7 @@ def gen_script(rng: Rng, tag: str, consts: Rng | None = None, const_exprs: bool 
     if rng.chance(0.3):
         body.insert(0, f'{ind}"""{rng.choice(["Generated model function.", "Main entry: combines the carried variables."])}"""')
     lines += [dec, f"def {fname}(x: FLOAT['N'], y: FLOAT['N']) -> FLOAT['N']:"] + body + [f"{ind}return {ret}", ""]
-    return {"src": "\n".join(lines), "fns": [fname], "tag": tag, "oplike": oplike}
+    return {"src": "\n".join(lines), "fns": [fname] + ([wrapper] if wrapper else []), "tag": tag, "oplike": oplike}
 
 
 # scripts the decorator must refuse, each in a stable way
